@@ -79,6 +79,12 @@ func (pc ParseContext) ParseExploreRange(n datamodel.Node) (Selector, error) {
 	if err != nil {
 		return nil, err
 	}
+	// A range too wide to list its indices one by one states no specific interests:
+	// the walk then offers every child to Explore, which checks the index against the range.
+	const maxListedInterests = 1 << 12
+	if uint64(endValue)-uint64(startValue) > maxListedInterests {
+		return ExploreRange{selector, startValue, endValue, nil}, nil
+	}
 	x := ExploreRange{
 		selector,
 		startValue,
